@@ -51,16 +51,18 @@ def run(ctx) -> None:
         g = cfg_of(f)
         npar = f.node.args.args[1].arg
         body = [n for n in g.nodes if any(call_attr(c) == "_visit_children" for c in n.calls())]
-        loops = [n for n in g.nodes if n.kind == "test" and norm(n.ast) == f"not {npar}.activated" and any(
-            l == "T" and d in g.search([n.id], lambda x: False, collect=True) for d, l in g.succ[n.id])]
-        wl = [n for n in loops if n.id in g.search([d for d, l in g.succ[n.id] if l == "T"], lambda x: False, collect=True)]
+        # (CFG tests are stored without leading negation: `while not node.activated` is the test `node.activated` whose
+        # F edge enters the loop body)
+        loops = [n for n in g.nodes if n.kind == "test" and norm(n.ast) == f"{npar}.activated" and any(
+            l == "F" and d in g.search([n.id], lambda x: False, collect=True) for d, l in g.succ[n.id])]
+        wl = [n for n in loops if n.id in g.search([d for d, l in g.succ[n.id] if l == "F"], lambda x: False, collect=True)]
         if len(body) != 1 or not wl:
             raise AnchorError(f"{name}: body invocation / activation wait loop not recognised")
         b, w = body[0], wl[0]
         # on every path to the body, node.activated holds: either the loop was left through its F edge, or the enclosing
         # `if not node.activated` was false
         p = g.search(None, lambda n: n.id == b.id, blocked_edge=lambda s, d, l: g.nodes[s].kind == "test"
-                     and norm(g.nodes[s].ast) == f"not {npar}.activated" and l == "F")
+                     and norm(g.nodes[s].ast) == f"{npar}.activated" and l == "T")
         inst = f"{name}: body runs only with node.activated"
         if p is None:
             ctx.ok("R04a", inst)
